@@ -123,7 +123,7 @@ Print Assumptions C18_simp_err_justified.
        proved in IO/Aiger{Lex,Sec,Sym,,Total,Sound}Proofs.v *)
 From Coq Require Import NArith Relations.
 From OxiVerif Require Import IO.Aiger IO.AigerParse IO.AigerLexProofs IO.AigerSecProofs IO.AigerSymProofs
-     IO.AigerProofs IO.AigerTotalProofs IO.AigerSoundProofs IO.AigerExamples.
+     IO.AigerProofs IO.AigerTotalProofs IO.AigerSoundProofs IO.AigerAcyclicProofs IO.AigerExamples.
 Import ListNotations.
 
 (** (a) totality: for ALL byte strings the reader returns a problem or a diagnostic;
@@ -219,6 +219,20 @@ Theorem C18_aiger_bin_topo : forall (ca : bool) bs p, is_binary bs -> parse_aige
   forall g, ~ clos_trans nat (reads (ap_ands p)) g g.
 Proof. exact parse_aig_topo. Qed.
 Print Assumptions C18_aiger_bin_topo.
+
+(** the acyclicity test of the ASCII branch (the model's counterpart of
+    Circuit::find_cycle) is sound for ARBITRARY gate lists, and so every problem
+    accepted with [check_acyclic = true], ASCII or binary, has no gate that depends
+    on itself *)
+Theorem C18_aiger_acyclic_b_sound : forall gates, acyclic_b gates = true ->
+  forall g, ~ clos_trans nat (reads gates) g g.
+Proof. exact acyclic_b_sound. Qed.
+Print Assumptions C18_aiger_acyclic_b_sound.
+
+Theorem C18_aiger_accepted_acyclic : forall bs p, parse_aiger true bs = POk p ->
+  forall g, ~ clos_trans nat (reads (ap_ands p)) g g.
+Proof. exact parse_aiger_acyclic. Qed.
+Print Assumptions C18_aiger_accepted_acyclic.
 
 (** the hypotheses are satisfiable by a non-trivial problem (latches with reset 1 /
     uninitialised, three gates, justice, names) *)
